@@ -108,6 +108,17 @@ class C04(Prop):
                    ["insert", "b1", storegen.rand_ev(rng)], ["bulk", "b0", evs], ["bulk", "b0", ups], ["get", "b1", -1, None, None]]
             for be in storelib.BACKENDS:
                 out.append(("big-upsert", {"backend": be, "ops": ops}))
+        # a bucket of several hundred events is deleted while the buckets around it hold events written before, between
+        # and after its own
+        for n in (501, 1203) if ctx.quick else (499, 500, 501, 1000, 1203, 2500):
+            evs = [[None, storegen.T0 + k * 1000, 1000, storegen.LABELS[k % 2]] for k in range(n)]
+            ops = [["create", "b0", storegen.mk_meta(rng, "b0")], ["create", "b1", storegen.mk_meta(rng, "b1")],
+                   ["create", "bü-2", storegen.mk_meta(rng, "bü-2")],
+                   ["insert", "b0", storegen.rand_ev(rng)], ["bulk", "bü-2", [storegen.rand_ev(rng) for _ in range(3)]],
+                   ["bulk", "b1", evs[: n // 2]], ["insert", "b0", storegen.rand_ev(rng)], ["bulk", "b1", evs[n // 2 :]],
+                   ["insert", "bü-2", storegen.rand_ev(rng)], ["delbucket", "b1"], ["get", "b0", -1, None, None]]
+            for be in storelib.BACKENDS:
+                out.append(("big-delete", {"backend": be, "ops": ops}))
         # the same kind of histories on the lazily committing sqlite store observed WITHOUT committing (raw SELECTs on
         # the store's own connection): a write that is only buffered must survive a rejected operation on another bucket
         for i in range(ctx.pick(60, 800)):
